@@ -138,7 +138,7 @@ PROPS = {
     },
     "C16": {
         "theorems": ["FinProto.Obl.C16_readString_copying", "FinProto.Obl.C16_readFixed_copying", "FinProto.Obl.C16_readBasic_copying", "FinProto.Obl.C16_no_unrecognised_statement", "FinProto.Obl.C16_readers_copying", "FinProto.Obl.C16_readers_immune",
-                     "FinProto.Alias.noalias_return", "FinProto.Alias.decode_immune", "FinProto.Alias.return_observable", "FinProto.Alias.view_aliases",
+                     "FinProto.Alias.noalias_return", "FinProto.Alias.decode_immune_clean", "FinProto.Alias.ret_region_ne_buf", "FinProto.Alias.copyOfView_retClean", "FinProto.Alias.subOfView_not_retClean", "FinProto.Alias.unsafeOfView_not_retClean", "FinProto.Alias.decode_immune", "FinProto.Alias.return_observable", "FinProto.Alias.view_aliases",
                      "FinProto.Alias.encode_immune", "FinProto.Alias.encode_immune_contents"],
         "aspects": {**ENC_ALL},
         "rule": "every type: decode from a harness-owned slice, snapshot, overwrite the whole backing array and reuse the buffer; mutate and "
@@ -270,7 +270,9 @@ def check_facts(pid, facts):
         for name, f in sorted(codec.items()):
             if name.startswith("Read"):
                 views = [v for v in f["buf_views"] if v in ("buf.Bytes", "buf.Next", "buf.AvailableBuffer") or v.startswith("unsafe")]
-                out.append(("reader-copies:" + name, False if views else True, "views of the buffer's memory: %s" % views))
+                # informational when a view is taken: whether the RETURNED value can point into the buffer is decided in Lean on
+                # the regenerated memory programs (Obl.C16_readers_copying: Prog.retClean); string(buf.Next(n)) is a copy
+                out.append(("reader-copies:" + name, None if views else True, "views of the buffer's memory: %s" % views))
     if pid == "C18":
         for name in PREFIX_WRITERS:
             f = fn(name)
